@@ -351,6 +351,21 @@ BESIDE = {'C02': ' Sessions of different versions at the same time; the encoder 
 for _pid, _t in BESIDE.items():
     CHECKS[_pid]['text'] += _t
 
+ROUND8 = {'C02': ' Fixed-size leaves of what a wrapped Get writes back from the request, sent with other announced lengths.',
+          'C03': ' Denials under other spellings of the identifier (leading zero, sign, blank, fraction).',
+          'C05': ' Creating requests with a Time Stamp a little behind the server clock.',
+          'C07': ' Creating requests that name the identifier they would like (destroyed, in use, not issued yet).',
+          'C09': " The dying server's logging level (off / DEBUG) as a configuration dimension; the crash point 'none' (close, exit, SIGKILL between requests).",
+          'C10': ' Sessions that cannot depend on each other, with the optional header fields few clients send: answers beside = answers alone.',
+          'C11': ' Optional header fields (time stamps in no particular order, asynchronous indicator, size limit, batch options) in the beside class.',
+          'C12': ' Streams of 14 and 28 frames on one connection.',
+          'C16': ' Request-header fields of later versions (correlation values, attestation indicator) under every earlier version.',
+          'C17': ' Common names of 51 and 64 characters, two agreeing in their first fifty.',
+          'C19': ' GetAttributes answers holding an attribute the client cannot decode.',
+          'C20': ' The server object as an application hosts it: KmipServer logging set-up at INFO / WARNING / ERROR beside a root handler without a level.'}
+for _pid, _t in ROUND8.items():
+    CHECKS[_pid]['text'] += _t
+
 def build():
     with open(os.path.join(ROOT, 'properties.jsonl')) as f:
         pids = [json.loads(l)['id'] for l in f if l.strip()]
